@@ -447,7 +447,7 @@ func compare(ref *isaspec.State, st0 *isaspec.State, r implResult, c *ICase) str
 	}
 	chk64(isaspec.CellVCC, "VCC", wf.VCC(), ref.VCC, st0.VCC)
 	chk64(isaspec.CellEXEC, "EXEC", wf.EXEC(), ref.EXEC, st0.EXEC)
-	if wf.SCC() != ref.SCC {
+	if wf.SCC() != ref.SCC && mk.mask[cellKey{kind: isaspec.CellSCC}] == 0 {
 		add("SCC = %d, ISA %d (was %d)", wf.SCC(), ref.SCC, st0.SCC)
 	}
 	if wf.M0 != ref.M0 {
@@ -571,6 +571,10 @@ func RunICase(c ICase) (res stats.Result) {
 		stats.AddExtra("outside-reference-domain: "+reasonClass(err.Error()), 1)
 		return
 	}
+	if id := knownRelax(arch, entry, d, st0, ref); id != "" {
+		res.Labels = append(res.Labels, "relaxed:"+id)
+		res.Excluded = append(res.Excluded, id)
+	}
 	code, err := isaenc.Encode(d)
 	if err != nil {
 		panic(fmt.Sprintf("harness: description does not encode: %v (%+v)", err, d))
@@ -660,6 +664,9 @@ func nonTrivial(e *isaspec.Entry, c *ICase, ref *isaspec.State) bool {
 // Known findings (narrow signatures); filled in known_insts_test.go
 
 var (
+	// knownRelax may mark cells of the reference result as unconstrained for a known finding whose
+	// signature needs the operand values; it returns the finding's id (counted as excluded).
+	knownRelax     = func(arch isaspec.Arch, e *isaspec.Entry, d isaenc.Desc, st0, ref *isaspec.State) string { return "" }
 	knownExcluded  = func(arch isaspec.Arch, e *isaspec.Entry, d isaenc.Desc) string { return "" }
 	knownSignature = func(arch isaspec.Arch, e *isaspec.Entry, d isaenc.Desc, violation string) string { return "" }
 )
